@@ -78,6 +78,10 @@ type glTarget struct {
 	// ignore: calls (printed function) that are dropped like logging calls — only for calls whose sole effect is on
 	// values that nothing but log statements read (e.g. `copy(tmp[:], …)` feeding a Debugf)
 	ignore []string
+	// joinPoints: an `if` one of whose branches may leave while the other falls through is translated with the
+	// statements after it as a local function (`let k_n := fun vars => …`) that both branches call, instead of
+	// duplicating those statements in both branches
+	joinPoints bool
 }
 
 type glTypeCase struct {
@@ -126,9 +130,13 @@ type glCtx struct {
 	usesExt    map[string]bool
 	effectDone map[*ast.AssignStmt]bool
 	effectCall *ast.CallExpr // the effect call whose trace entry the enclosing statement has just recorded
-	reach      string        // see glTarget.blockReach
-	resTypes   []string      // Go result types of the function being translated
-	deferred   []string      // trace entries of deferred effect calls, in the order the defers were executed
+	cont       string        // join point to call when control falls out of the current statement list
+	contVars   []string
+	nJoin      int
+	inLoopBody bool     // inside a loop body that started after the current join point was set
+	reach      string   // see glTarget.blockReach
+	resTypes   []string // Go result types of the function being translated
+	deferred   []string // trace entries of deferred effect calls, in the order the defers were executed
 }
 
 func (c *glCtx) fail(n ast.Node, f string, a ...interface{}) {
@@ -315,7 +323,11 @@ func (c *glCtx) expr(e ast.Expr) (string, string) {
 			return "(" + ex.lean + " " + s + ")", ex.ret[0]
 		}
 		if ft, ok := c.structField(ty, x.Sel.Name); ok {
-			return s + "." + x.Sel.Name, ft
+			fld := x.Sel.Name
+			if leanKeywords[fld] {
+				fld = "«" + fld + "»"
+			}
+			return s + "." + fld, ft
 		}
 		c.fail(x, "field %s of a value of type %q", x.Sel.Name, ty)
 	case *ast.StarExpr:
@@ -841,6 +853,9 @@ func (c *glCtx) fallthroughEnd(n ast.Node) string {
 	if c.joinActive {
 		return tuple(c.join)
 	}
+	if c.cont != "" && !c.inLoopBody {
+		return c.cont + " " + tuple(c.contVars)
+	}
 	if c.inLoop {
 		return "KM.Go.Ctl.next " + tuple(c.state)
 	}
@@ -1255,7 +1270,14 @@ func (c *glCtx) ifStmt(x *ast.IfStmt, rest []ast.Stmt, d int) string {
 		// that shadows the outer one inside the block) is harmless exactly when `rest` never mentions that name
 		for _, n := range declaredNames(list) {
 			if _, outer := c.lookup(n); outer && mentionsIdent(rest, n) {
-				c.fail(x, "branch redeclares %s, which the statements after the if still use", n)
+				// the branch re-declares n (a new variable to the end of the branch) and the statements after the if
+				// still use the outer n: inside the branch, from the declaring statement on, the new variable is renamed
+				// (identifiers restored afterwards: the syntax tree is shared)
+				restore, ok := renameFrom(list, n, c)
+				if !ok {
+					c.fail(x, "branch redeclares %s, which the statements after the if still use", n)
+				}
+				defer restore()
 			}
 		}
 		return c.stmts(append(append([]ast.Stmt{}, list...), rest...), d+1)
@@ -1278,6 +1300,25 @@ func (c *glCtx) ifStmt(x *ast.IfStmt, rest []ast.Stmt, d int) string {
 	}
 	thenLeaves := terminates(x.Body)
 	elseLeaves := x.Else != nil && terminates(x.Else)
+	if c.t.joinPoints && !thenLeaves && !elseLeaves && len(rest) > 0 && !c.inLoop {
+		// both branches may fall through (and at least one may also leave): the statements after the if become a
+		// join point that the branches call with the variables they may have assigned
+		vars := c.assignedOuter(append(append([]ast.Stmt{}, x.Body.List...), elseList...))
+		c.nJoin++
+		k := fmt.Sprintf("k_%d", c.nJoin)
+		restS := c.stmts(rest, d+1)
+		br := func(list []ast.Stmt) string {
+			c.push()
+			defer c.pop()
+			sc, sv, sl := c.cont, c.contVars, c.inLoopBody
+			c.cont, c.contVars, c.inLoopBody = k, vars, false
+			defer func() { c.cont, c.contVars, c.inLoopBody = sc, sv, sl }()
+			return c.stmts(list, d+1)
+		}
+		pat := tuple(vars)
+		return "let " + k + " := fun " + pat + " =>" + ind(d+1) + restS + ";" + ind(d) +
+			"if " + cond + " then" + ind(d+1) + br(x.Body.List) + ind(d) + "else" + ind(d+1) + br(elseList)
+	}
 	thenS := branch(x.Body.List, thenLeaves)
 	var elseS string
 	if elseLeaves {
@@ -1361,6 +1402,75 @@ func (c *glCtx) typeSwitch(x *ast.TypeSwitchStmt, rest []ast.Stmt, d int) string
 		out += ind(d) + "| _ =>" + ind(d+1) + c.stmts(rest, d+1)
 	}
 	return out
+}
+
+// renameFrom renames the variable n that one of the top-level statements of list declares with `:=` (left-hand side
+// only in the declaring statement, every occurrence in the statements after it) to a fresh name; it returns the
+// function that undoes the renaming. Not applicable (false) when the declaration is not a plain `:=` whose right-hand
+// side does not mention n.
+func renameFrom(list []ast.Stmt, n string, c *glCtx) (func(), bool) {
+	k := -1
+	for i, st := range list {
+		if as, ok := st.(*ast.AssignStmt); ok && as.Tok == token.DEFINE {
+			for _, l := range as.Lhs {
+				if id, ok := l.(*ast.Ident); ok && id.Name == n && k < 0 {
+					k = i
+				}
+			}
+		}
+	}
+	if k < 0 {
+		return nil, false
+	}
+	decl := list[k].(*ast.AssignStmt)
+	for _, r := range decl.Rhs {
+		if mentionsIdent([]ast.Stmt{&ast.ExprStmt{X: r}}, n) {
+			return nil, false
+		}
+	}
+	if mentionsIdent(list[:k], n) {
+		// uses of the OUTER n before the declaration stay as they are; fine
+	}
+	fresh := n + "_s"
+	for {
+		if _, taken := c.lookup(fresh); !taken && !mentionsIdent(list, fresh) {
+			break
+		}
+		fresh += "s"
+	}
+	var touched []*ast.Ident
+	ren := func(node ast.Node) {
+		ast.Inspect(node, func(m ast.Node) bool {
+			switch y := m.(type) {
+			case *ast.SelectorExpr:
+				ast.Inspect(y.X, func(q ast.Node) bool {
+					if id, ok := q.(*ast.Ident); ok && id.Name == n {
+						id.Name = fresh
+						touched = append(touched, id)
+					}
+					return true
+				})
+				return false
+			case *ast.Ident:
+				if y.Name == n {
+					y.Name = fresh
+					touched = append(touched, y)
+				}
+			}
+			return true
+		})
+	}
+	for _, l := range decl.Lhs {
+		ren(l)
+	}
+	for _, st := range list[k+1:] {
+		ren(st)
+	}
+	return func() {
+		for _, id := range touched {
+			id.Name = n
+		}
+	}, true
 }
 
 // assignsIdent: is there a plain assignment (=, op=, ++) to the identifier n anywhere in the statements?
@@ -1463,9 +1573,9 @@ func (c *glCtx) switchToIf(x *ast.SwitchStmt) ast.Stmt {
 }
 
 func (c *glCtx) loopBody(body []ast.Stmt, state []string, d int) string {
-	savedLoop, savedState := c.inLoop, c.state
-	c.inLoop, c.state = true, state
-	defer func() { c.inLoop, c.state = savedLoop, savedState }()
+	savedLoop, savedState, savedLB := c.inLoop, c.state, c.inLoopBody
+	c.inLoop, c.state, c.inLoopBody = true, state, true
+	defer func() { c.inLoop, c.state, c.inLoopBody = savedLoop, savedState, savedLB }()
 	return c.stmts(body, d)
 }
 
